@@ -79,6 +79,9 @@ def parse_tlc(out):
     m = re.search(r"(\d[\d,]*) states generated, (\d[\d,]*) distinct states found", out)
     if m:
         res["states"] = int(m.group(1).replace(",", "")); res["distinct"] = int(m.group(2).replace(",", ""))
+    if res["distinct"] is None:      # stopped by the time limit: what the last progress report says (a breadth-first prefix)
+        pm = re.findall(r"Progress\((\d+)\)[^\n]*?: ([\d,]+) states generated[^\n]*?, ([\d,]+) distinct states found", out)
+        if pm: res["depth"] = int(pm[-1][0]); res["states"] = int(pm[-1][1].replace(",", "")); res["distinct"] = int(pm[-1][2].replace(",", ""))
     m = re.search(r"depth of the complete state graph search is (\d+)", out)
     if m: res["depth"] = int(m.group(1))
     m = re.search(r"Invariant (\w+) is violated", out)
